@@ -579,7 +579,11 @@ func c10FullRead(w *World, r *Report) {
 	}
 	r.Fn(FuncName(dec))
 	ok, n := true, 0
-	for _, c := range callInstrs(dec) {
+	var calls []ssa.CallInstruction
+	for _, f := range withAnon(dec) {
+		calls = append(calls, callInstrs(f)...)
+	}
+	for _, c := range calls {
 		f, _ := calleeOf(c.Common())
 		if f == nil || !(fnPkgPath(f) == "io" && f.Name() == "ReadAll") {
 			continue
